@@ -8,12 +8,12 @@ import (
 	"errors"
 	"fmt"
 	"io"
-	"math"
 	"net"
 	"sync"
 	"time"
 
 	"github.com/pion/stun/v3"
+	"github.com/pion/transport/v4/deadline"
 	"github.com/pion/turn/v5/internal/proto"
 )
 
@@ -56,18 +56,18 @@ func NewUDPConn(config *AllocationConfig) *UDPConn {
 		closeCh:                make(chan struct{}),
 		bindingRefreshInterval: defaultBindingRefreshInterval,
 		allocation: allocation{
-			client:      config.Client,
-			relayedAddr: config.RelayedAddr,
-			serverAddr:  config.ServerAddr,
-			readTimer:   time.NewTimer(time.Duration(math.MaxInt64)),
-			permMap:     newPermissionMap(),
-			username:    config.Username,
-			realm:       config.Realm,
-			integrity:   config.Integrity,
-			_nonce:      config.Nonce,
-			_lifetime:   config.Lifetime,
-			net:         config.Net,
-			log:         config.Log,
+			client:       config.Client,
+			relayedAddr:  config.RelayedAddr,
+			serverAddr:   config.ServerAddr,
+			readDeadline: deadline.New(),
+			permMap:      newPermissionMap(),
+			username:     config.Username,
+			realm:        config.Realm,
+			integrity:    config.Integrity,
+			_nonce:       config.Nonce,
+			_lifetime:    config.Lifetime,
+			net:          config.Net,
+			log:          config.Log,
 		},
 	}
 
@@ -135,14 +135,16 @@ func NewUDPConn(config *AllocationConfig) *UDPConn {
 func (c *UDPConn) ReadFrom(p []byte) (n int, addr net.Addr, err error) {
 	for {
 		// A deadline that has passed fails every read until it is moved,
-		// not only the one that was blocked when it expired.
-		if dl := c.readDeadline.Load(); dl != 0 && time.Now().UnixNano() >= dl {
+		// not only the ones that were blocked when it expired.
+		select {
+		case <-c.readDeadline.Done():
 			return 0, nil, &net.OpError{
 				Op:   "read",
 				Net:  c.LocalAddr().Network(),
 				Addr: c.LocalAddr(),
 				Err:  newTimeoutError("i/o timeout"),
 			}
+		default:
 		}
 
 		select {
@@ -154,7 +156,7 @@ func (c *UDPConn) ReadFrom(p []byte) (n int, addr net.Addr, err error) {
 
 			return n, ibData.from, nil
 
-		case <-c.readTimer.C:
+		case <-c.readDeadline.Done():
 			return 0, nil, &net.OpError{
 				Op:   "read",
 				Net:  c.LocalAddr().Network(),
@@ -342,15 +344,7 @@ func (c *UDPConn) SetDeadline(t time.Time) error {
 // and any currently-blocked ReadFrom call.
 // A zero value for t means ReadFrom will not time out.
 func (c *UDPConn) SetReadDeadline(t time.Time) error {
-	var d time.Duration
-	if t.Equal(noDeadline()) {
-		d = time.Duration(math.MaxInt64)
-		c.readDeadline.Store(0)
-	} else {
-		d = time.Until(t)
-		c.readDeadline.Store(t.UnixNano())
-	}
-	c.readTimer.Reset(d)
+	c.readDeadline.Set(t)
 
 	return nil
 }
